@@ -374,6 +374,19 @@ pub fn values(full: bool) -> Vec<(v5::codec::Encoded, usize)> {
         ));
         v.push((c::Encoded::Packet(c::Packet::Connect(Box::new(connect_with(0x7ff | (n as u32) << 13, None)))), 0));
     }
+    // CONNECT with a Last Will: two property sections with a length prefix each; one of them on a variable-byte-integer
+    // boundary while the other stays small, and both (seeded change C09_r10 sized the will's prefix from the CONNECT
+    // section's length, so the Remaining Length was off by one)
+    for n in [120usize, 124, 125, 126, 127, 128, 129, 130] {
+        let mut w = crate::genpkt::will_with(0);
+        w.content_type = Some(crate::genpkt::long_str(n));
+        v.push((c::Encoded::Packet(c::Packet::Connect(Box::new(connect_with(0, Some(w.clone()))))), 0));
+        let mut cn = connect_with(0, Some(crate::genpkt::will_with(0)));
+        cn.auth_method = Some(crate::genpkt::long_str(n));
+        v.push((c::Encoded::Packet(c::Packet::Connect(Box::new(cn.clone()))), 0));
+        cn.last_will = Some(w);
+        v.push((c::Encoded::Packet(c::Packet::Connect(Box::new(cn))), 0));
+    }
     v.push((c::Encoded::Packet(c::Packet::PingRequest), 0));
     v.push((c::Encoded::Packet(c::Packet::PingResponse), 0));
     v
